@@ -182,11 +182,11 @@ def check_isnone(run, F):
 
 def check_defaults(run, F):
     want = {
-        'from_opt': 'opt.map_or_else(NULL, IsNone::from_inner)',
+        'from_opt': 'opt.map(IsNone::from_inner).unwrap_or(NULL)',
         'unwrap': 'self',                      # to_opt().unwrap() with coercions erased
         'not_none': 'VALID(self)',
         'map': 'self.map(|a0| IsNone::from_inner(f(a0))).unwrap_or(NULL)',
-        'vabs': 'self.map(|a0| a0.abs())',
+        'vabs': 'self.map(Number::abs)',
     }
     n = 0
     for name, w in want.items():
@@ -197,6 +197,17 @@ def check_defaults(run, F):
         if name == 'map':
             okm = t_ == T((['VALID(self)'], 'IsNone::from_inner(f(self))', []), (['!VALID(self)'], 'NULL', []))
             run.ob('NUL.default', fn, 'IsNone::map', okm, fn.loc(), 'map table %s' % dtree.show(t_))
+            continue
+        if name == 'from_opt':
+            # as a table (a `match` is the same thing), and none() must stay lazy: it panics for the
+            # never-null types, so it may not be evaluated as an eager default argument
+            tx = tblx(fn)
+            okt = tx == T((['VALID(opt)'], 'IsNone::from_inner(opt)', []), (['!VALID(opt)'], 'NULL', []))
+            eager = [x for x in walk(fn.hir) if x.get('k') == 'MethodCall' and
+                     x['method'] in ('map_or', 'unwrap_or') and
+                     any(peel(a_).get('k') == 'Call' and callee_is(peel(a_), 'IsNone::none') for a_ in x['ch'][1:])]
+            run.ob('NUL.default', fn, 'IsNone::from_opt', okt and not eager, fn.loc(),
+                   'table %s%s' % (dtree.show(tx), '; none() evaluated eagerly' if eager else ''))
             continue
         run.ob('NUL.default', fn, 'IsNone::%s' % name, leaf == w, fn.loc(), '%s = %s' % (name, leaf))
     return n
